@@ -24,6 +24,7 @@ SIZE_PATTERNS = {
     "wide1": [(40, 2), (2, 2), (2, 2), (4, 4), (2, 2), (0, 0)],
     "odd": [(3, 1), (1, 5), (7, 3), (5, 5), (1, 1), (9, 3)],
     "unit": [(2, 2)],
+    "huge": [(8192, 64), (1024, 64), (4096, 128), (8192, 32), (2048, 64), (1024, 1024)],
     "dec": [(1, 1), (127, 200), (1207, 402), (101, 7), (33, 1), (5, 50), (999, 13)],
 }
 
